@@ -55,16 +55,17 @@ type aftersunInject struct {
 }
 
 type aftersunLogSpec struct {
-	Steps  []int  `json:"steps"`            // entries per sequencing round
+	Steps  []int  `json:"steps"`             // entries per sequencing round
 	CrashN int    `json:"crash_n,omitempty"` // one more round with this many entries …
 	CrashK int    `json:"crash_k,omitempty"` // … killed after the CAS once CrashK tile uploads went through
-	Ckpt   string `json:"ckpt,omitempty"`   // "" | missing | resign | origin | garbage
+	Ckpt   string `json:"ckpt,omitempty"`    // "" | missing | resign | origin | garbage
 }
 
 type aftersunMirrorSpec struct {
-	Sizes   []int  `json:"sizes"`             // mirrored sizes in order (add-checkpoint + add-entries each)
-	Pending int    `json:"pending,omitempty"` // extra entries witnessed but not mirrored
-	Ckpt    string `json:"ckpt,omitempty"`    // "" | missing | garbage | renamed
+	Sizes    []int  `json:"sizes"`              // mirrored sizes in order (add-checkpoint + add-entries each)
+	Pending  int    `json:"pending,omitempty"`  // extra entries witnessed but not mirrored
+	Uploaded int    `json:"uploaded,omitempty"` // … of which this many were already uploaded (add-entries without reaching the commit)
+	Ckpt     string `json:"ckpt,omitempty"`     // "" | missing | garbage | renamed
 }
 
 type aftersunCase struct {
@@ -271,6 +272,11 @@ func (w *aftersunWorld) buildMirrors() error {
 			}
 			if err := wit.AddCheckpoint(ml, prev, prev+int64(sp.Pending)); err != nil {
 				return err
+			}
+			if sp.Uploaded > 0 && sp.Uploaded < sp.Pending {
+				// an upload that stops short of the witnessed size: tiles are written past the mirror checkpoint (a full
+				// sibling of its right-edge partial may appear), the mirror checkpoint itself does not move
+				_ = wit.AddEntries(ml, prev, prev+int64(sp.Uploaded), prev+int64(sp.Pending))
 			}
 		}
 		h := witness.OriginHash(origin)
@@ -971,6 +977,10 @@ func aftersunGenerate(o *Opts, r *Rand) []*aftersunCase {
 	c.Logs = []aftersunLogSpec{{Steps: aftersunHistory(r, 257, 3)}}
 	c.Mirrors = []aftersunMirrorSpec{{Sizes: []int{200, 512, 520}}, {Sizes: []int{3, 256}, Pending: 300}, {Sizes: nil, Pending: 10}}
 	c.AutoInject = "leftovers"
+	// a mirror behind its witness: the witnessed checkpoint is ahead, entries were uploaded past the mirror checkpoint
+	// (completing the tile its right edge lies in) but the upload never reached the commit
+	c = mk("mirror-behind")
+	c.Mirrors = []aftersunMirrorSpec{{Sizes: []int{300}, Pending: 300, Uploaded: 220}, {Sizes: []int{100, 255}, Pending: 400, Uploaded: 300}, {Sizes: []int{256, 513}, Pending: 600, Uploaded: 260}}
 	if thorough {
 		c = mk("mirror")
 		c.Mirrors = []aftersunMirrorSpec{{Sizes: []int{511, 512, 513, 1000}}, {Sizes: []int{256, 257}}}
